@@ -40,14 +40,14 @@ func (s *Service) scheduleProposals(ctx context.Context,
 
 	// Obtaining the duties and setting up their jobs must not be interleaved with a refresh,
 	// otherwise jobs for duties that the refresh has replaced could be set up after it.
-	s.proposerDutiesMutex.Lock()
-	defer s.proposerDutiesMutex.Unlock()
+	s.proposerDutiesMutexes[uint64(epoch)%dutiesMutexes].Lock()
+	defer s.proposerDutiesMutexes[uint64(epoch)%dutiesMutexes].Unlock()
 
 	s.scheduleProposalsLocked(ctx, epoch, validatorIndices, notCurrentSlot)
 }
 
 // scheduleProposalsLocked schedules proposals for the given epoch and validator indices.
-// The caller must hold proposerDutiesMutex.
+// The caller must hold the proposer duties mutex of the epoch.
 func (s *Service) scheduleProposalsLocked(ctx context.Context,
 	epoch phase0.Epoch,
 	validatorIndices []phase0.ValidatorIndex,
